@@ -88,6 +88,12 @@ def _pass_through(stmts, hit):
             return "BAD", st
         if isinstance(st, ast.Raise):
             return "CALLED", None
+        if isinstance(st, ast.If) and isinstance(st.test, ast.Constant):
+            # `if True:` / `if False:` / `if 0:`: only one arm exists
+            a, na = _pass_through(st.body if st.test.value else st.orelse, hit)
+            if a != "OPEN":
+                return a, na
+            continue
         if isinstance(st, ast.If):
             a, na = _pass_through(st.body, hit)
             b, nb = _pass_through(st.orelse, hit)
@@ -119,6 +125,55 @@ def _pass_through(stmts, hit):
             if a == "CALLED" and all(h == "CALLED" for h, _ in hs):
                 return "CALLED", None
     return state, None
+
+
+def _dominated_by(stmts, hit, target, called=False):
+    """True / False: on every path from the start of `stmts` to the statement holding the node `target`, a statement
+    satisfying `hit` has been executed.  None: the target is not in these statements."""
+
+    def holds(st):
+        return any(x is target for x in ast.walk(st))
+
+    for st in stmts:
+        if holds(st):
+            if isinstance(st, ast.If):
+                if any(x is target for x in ast.walk(st.test)):
+                    return called
+                for blk in (st.body, st.orelse):
+                    r = _dominated_by(blk, hit, target, called)
+                    if r is not None:
+                        return r
+                return called
+            if isinstance(st, (ast.For, ast.While)):
+                r = _dominated_by(st.body, hit, target, called)
+                if r is None:
+                    r = _dominated_by(st.orelse, hit, target, called)
+                return called if r is None else r
+            if isinstance(st, ast.With):
+                r = _dominated_by(st.body, hit, target, called)
+                return called if r is None else r
+            if isinstance(st, ast.Try):
+                r = _dominated_by(st.body, hit, target, called)
+                if r is not None:
+                    return r
+                for h in st.handlers:
+                    r = _dominated_by(h.body, hit, target, called)  # the body may not have got to its refresh
+                    if r is not None:
+                        return r
+                body_calls = _pass_through(st.body, hit)[0] == "CALLED"
+                r = _dominated_by(st.orelse, hit, target, called or body_calls)
+                if r is not None:
+                    return r
+                r = _dominated_by(st.finalbody, hit, target, called)
+                return called if r is None else r
+            return called  # a simple statement: what ran before it counts
+        if isinstance(st, (ast.Expr, ast.Assign, ast.AugAssign, ast.AnnAssign)):
+            if hit(st):
+                called = True
+        elif isinstance(st, (ast.If, ast.With, ast.Try, ast.For, ast.While)):
+            if _pass_through([st], hit)[0] == "CALLED":
+                called = True
+    return None
 
 
 def fit_always_fits(ctx, det_base, sc_base):
@@ -412,20 +467,19 @@ def check_stale_detector(ctx, cls):
         reads = [n for a, n in attr_loads(f) if a == "scores"]
         if not reads:
             continue
-        first_read = min(r.lineno * 10000 + r.col_offset for r in reads)
-        refreshed = False
-        # the recomputation must dominate the read: an unconditional top-level statement of
-        # the method body that precedes it
-        for stmt in f.node.body:
-            if stmt.lineno * 10000 + stmt.col_offset >= first_read:
-                break
-            if isinstance(stmt, (ast.If, ast.For, ast.While, ast.Try, ast.With, ast.FunctionDef)):
-                continue
+        first = min(reads, key=lambda r: r.lineno * 10000 + r.col_offset)
+        me = self_name(f)
+
+        def is_refresh(stmt, me=me):
             for x in ast.walk(stmt):
-                if isinstance(x, ast.Attribute) and isinstance(x.value, ast.Name) and x.value.id == self_name(f) and x.attr == "scores" and isinstance(x.ctx, ast.Store):
-                    refreshed = True
-                if isinstance(x, ast.Call) and isinstance(x.func, ast.Attribute) and isinstance(x.func.value, ast.Name) and x.func.value.id == self_name(f) and x.func.attr in ("predict", "_predict", "transform_scores", "_transform_scores"):
-                    refreshed = True
+                if isinstance(x, ast.Attribute) and isinstance(x.value, ast.Name) and x.value.id == me and x.attr == "scores" and isinstance(x.ctx, ast.Store):
+                    return True
+                if isinstance(x, ast.Call) and isinstance(x.func, ast.Attribute) and isinstance(x.func.value, ast.Name) and x.func.value.id == me and x.func.attr in ("predict", "_predict", "transform_scores", "_transform_scores"):
+                    return not any(isinstance(y, (ast.IfExp, ast.BoolOp, ast.ListComp, ast.GeneratorExp, ast.Lambda)) and any(z is x for z in ast.walk(y)) for y in ast.walk(stmt))
+            return False
+
+        # the recomputation must dominate the read: on every path from the entry of the method to the read
+        refreshed = _dominated_by(f.node.body, is_refresh, first) is True
         ctx.check(refreshed, rule, f"{cls.name}|{f.name}|scores-refreshed", f.loc(reads[0]), "a read of the cached self.scores is preceded, in the same method, by recomputing it for the current input", found=norm_src(reads[0]))
     if not bad_r and not bad_w:
         ctx.holds(rule, f"{cls.name}", cls.module.relpath, f"predict/transform closure ({len(predc)} methods) reads only hyper-parameters, constructor attributes and fit results {sorted(w_fit - set(params))[:6]}; writes only `scores`")
